@@ -599,3 +599,83 @@ example : ((⟨.lap, .forward, .constant, (1 : ℚ), false⟩ : Op ℚ).adjoint
   have h := (C13.affine_instances_have_no_adjoint .lap .forward .constant (1 : ℚ) false).2
   simp only [Op.isLinear, affineAware] at h
   rw [h]; simp
+
+
+/-! ### pad_const, linearity flag and `.derivative` of the instances -/
+
+/-- evalTerms does not depend on `c` when no term reads `pad_const` -/
+private lemma evalTerms_const_free {K : Type} [Field K] (n : Nat) (c c' : K) (f : Nat → K)
+    (ts : List Term) (h : ∀ t ∈ ts, t.src ≠ none) :
+    evalTerms n c f ts = evalTerms n c' f ts := by
+  induction ts with
+  | nil => rfl
+  | cons t ts ih =>
+    obtain ⟨q, src⟩ := t
+    cases src with
+    | none => exact absurd rfl (h ⟨q, none⟩ (by simp))
+    | some s =>
+      simp only [evalTerms, evalTerm]
+      rw [ih (fun t ht => h t (by simp [ht]))]
+
+/-- In the generated tables only the `constant` leaves read `pad_const`: for every method,
+every other pad mode, EVERY axis length, input and `pad_const`, `finite_diff` returns what it
+returns for `pad_const = 0`.  (So `linear = not (pad_mode == 'constant' and pad_const != 0)`
+does not overlook an affine case; breaks if a boundary row of another mode reads
+`pad_const`.) -/
+theorem C13.pad_const_ignored_unless_constant {K : Type} [Field K] (m : Method) (p : Pad)
+    (hp : p ≠ .constant) (n : Nat) (c dx : K) (f : Nat → K) (i : Nat) :
+    fd den (tbl m p) n c dx f i = fd den (tbl m p) n 0 dx f i := by
+  have key : ∀ ts ∈ (tbl m p).row0 :: (tbl m p).rowN :: (tbl m p).accs.map (·.terms),
+      ∀ t ∈ ts, t.src ≠ none := by
+    cases m <;> cases p <;> first | exact absurd rfl hp | decide
+  have h0 := evalTerms_const_free n c 0 f _ (key (tbl m p).row0 (by simp))
+  have hN := evalTerms_const_free n c 0 f _ (key (tbl m p).rowN (by simp))
+  have hacc : ∀ accs : List Acc, (∀ a ∈ accs, ∀ t ∈ a.terms, t.src ≠ none) →
+      accSum n c f accs i = accSum n 0 f accs i := by
+    intro accs
+    induction accs with
+    | nil => intro _; rfl
+    | cons a as ih =>
+      intro h
+      simp only [accSum]
+      rw [ih (fun b hb => h b (by simp [hb])),
+        evalTerms_const_free n c 0 f a.terms (h a (by simp))]
+  have hA := hacc (tbl m p).accs (fun a ha => key a.terms (by
+    simp only [List.mem_cons, List.mem_map]; exact Or.inr (Or.inr ⟨a, ha, rfl⟩)))
+  simp only [fd, fdNum, foldl_accStep, assign, h0, hN, hA]
+
+/-- The instance `Op.derivative` returns (executed by the driver's `cfg act=derivative`, compared
+with `op.derivative(x)` of the real classes) IS the derivative of the instance's 1-d action:
+for every instance (any class, method, pad mode, `pad_const`), every `n ≥ 2`, all `f, h`:
+`D_o(f+h) − D_o(f) = D_{o.derivative}(h)`; the returned instance is flagged linear and is its
+own derivative. -/
+theorem C13.op_derivative_is_derivative {K : Type} [Field K] [DecidableEq K] (o : Op K)
+    (n : Nat) (hn : 2 ≤ n) (dx : K) (f h : Nat → K) (i : Nat) :
+    (fd den (tbl o.method o.pad) n o.c dx (fun k => f k + h k) i
+        - fd den (tbl o.method o.pad) n o.c dx f i
+      = fd den (tbl o.derivative.method o.derivative.pad) n o.derivative.c dx h i) ∧
+    o.derivative.isLinear affineAware = true ∧ o.derivative.derivative = o.derivative := by
+  have aff := C13.fd_affine (tbl o.method o.pad) n hn o.c dx f h i
+  obtain ⟨k, m, p, c, neg⟩ := o
+  by_cases hp : p = .constant <;> by_cases hc : c = 0
+  · subst hp; subst hc
+    refine ⟨by simpa [Op.derivative] using aff, ?_, ?_⟩ <;>
+      cases k <;> simp [Op.derivative, Op.isLinear, affineAware]
+  · subst hp
+    refine ⟨by simpa [Op.derivative, hc] using aff, ?_, ?_⟩ <;>
+      cases k <;> simp [Op.derivative, Op.isLinear, affineAware, hc]
+  · subst hc
+    refine ⟨by simpa [Op.derivative, hp] using aff, ?_, ?_⟩ <;>
+      cases k <;> simp [Op.derivative, Op.isLinear, affineAware, hp]
+  · have e := C13.pad_const_ignored_unless_constant m p hp n c dx h i
+    have hd : (⟨k, m, p, c, neg⟩ : Op K).derivative = ⟨k, m, p, c, neg⟩ := by
+      simp [Op.derivative, hp]
+    refine ⟨by rw [hd]; simpa [e] using aff, ?_, ?_⟩ <;>
+      cases k <;> simp [Op.derivative, Op.isLinear, affineAware, hp]
+
+example : fd den (tbl .backward .constant) 4 (3 : ℚ) 2 (fun k => (k : ℚ) + 1) 0
+    - fd den (tbl .backward .constant) 4 (3 : ℚ) 2 (fun _ => 0) 0
+    = fd den (tbl .backward .constant) 4 0 2 (fun k => (k : ℚ) + 1) 0 := by
+  have h := (C13.op_derivative_is_derivative (⟨.pd, .backward, .constant, (3 : ℚ), false⟩ : Op ℚ)
+    4 (by decide) 2 (fun _ => 0) (fun k => (k : ℚ) + 1) 0).1
+  simpa [Op.derivative] using h
